@@ -10,6 +10,7 @@ LEVEL = "model_checking"
 _FAM = {}
 _FE = {}
 _ALPHA = {}
+_ALPHA5 = {}
 FLAG_MN = {"zi", "fw", "fr", "fc"}
 
 CYC_MN = ["opsd", "opbs", "opsb", "opdb", "mv0", "tie", "fw", "fr", "zi", "nodb"]
@@ -42,7 +43,15 @@ def setup(ctx, sub="c05"):
                         continue
                     alpha.append(((mn, (data, base, mode)), f.ri_mem(mn, data, base, mode)))
         _ALPHA[name] = alpha
-        dgfam.warm_parse_cache(f.isa, [ri.text for _, ri in alpha])
+        # C05 only (the alphabet above is shared with C04, C14, C16): the three-operand zero
+        # idiom with all operands equal and with only the outer ones equal
+        if f.isa == "x86":
+            trip = [(a, a, a), (a, b, a), (b, a, a), (a, b, b)]
+        else:
+            trip = [(a, a, a), (a, b, a), (a, a, b), (b, b, a)]
+        extra = [(("zi3", ops), f.ri_reg("zi3", ops)) for ops in trip]
+        _ALPHA5[name] = alpha + extra
+        dgfam.warm_parse_cache(f.isa, [ri.text for _, ri in alpha + extra])
 
 
 def lcd_observed(kernel, g):
@@ -167,7 +176,7 @@ def compare_lcd(fam, fe, ris, kernel, g, flags):
 def _work(item):
     famname, idxs, start_line = item
     fam = _FAM[famname]
-    ris = [_ALPHA[famname][i][1] for i in idxs]
+    ris = [_ALPHA5[famname][i][1] for i in idxs]
     out = {"bad": [], "n": 0, "skip": 0, "sig": []}
     has_flag = any(r.tag in FLAG_MN for r in ris)
     for flags in ((True, False) if has_flag else (False,)):
@@ -212,10 +221,10 @@ def _padded_case(item):
 def _items(ctx):
     items = []
     for famname in _FAM:
-        n = len(_ALPHA[famname])
+        n = len(_ALPHA5[famname])
         L = 3
         if famname == "a64p3":
-            rng = [i for i, (k, ri) in enumerate(_ALPHA[famname]) if k[0] in MEM_MN + ["opbs", "opsd"]]
+            rng = [i for i, (k, ri) in enumerate(_ALPHA5[famname]) if k[0] in MEM_MN + ["opbs", "opsd"]]
         else:
             rng = list(range(n))
         for l in (1, 2):
@@ -266,7 +275,7 @@ def run(ctx):
         res.outcomes.add(hash(tuple(o["sig"])))
         if any(s and s[0] for s in o["sig"]):
             res.nontrivial += 1
-        ris = [_ALPHA[famname][i][1] for i in idxs]
+        ris = [_ALPHA5[famname][i][1] for i in idxs]
         for kind, flags, what in o["bad"]:
             res.violations.append(core.Violation(
                 {"kind": kind, "isa": _FAM[famname].isa, "flags": flags,
@@ -276,7 +285,7 @@ def run(ctx):
                 {"family": famname, "idxs": list(idxs), "start_line": sl,
                  "kernel": [r.text for r in ris], "flags": flags, "what": what}))
     for (famname, idxs, sl), o in out[:1] + out[len(out) // 3: len(out) // 3 + 3]:
-        res.add_sample({"family": famname, "kernel": [_ALPHA[famname][i][1].text for i in idxs],
+        res.add_sample({"family": famname, "kernel": [_ALPHA5[famname][i][1].text for i in idxs],
                         "cycles": [list(s[0]) if s else None for s in o["sig"]]})
     res.evaluations = res.states
     res.rule = ("all kernels of length <=3 (thorough: <=4 over a thinned alphabet) over an alphabet "
